@@ -152,6 +152,19 @@ def as_bool(v):
     return f'not-a-bool:{type(v).__name__}:{v!r}'
 
 
+_N_NODES = {}
+
+
+def n_nodes(g):
+    """number of nodes of a graph (graphs have no len()); remembered per graph object"""
+    hit = _N_NODES.get(id(g))
+    if hit is None or hit[0] is not g:
+        if len(_N_NODES) > 64:
+            _N_NODES.clear()
+        hit = _N_NODES[id(g)] = (g, sum(1 for _ in g))
+    return hit[1]
+
+
 def impl_answer(g, query, argmap=None):
     """Evaluate one wire-format query on the implementation graph.  `argmap(json_arg)` gives the python argument."""
     import hpotk
@@ -176,7 +189,7 @@ def impl_answer(g, query, argmap=None):
             if k == 'root':
                 return {'ok': g.root.value}
             if k == 'nodes':
-                return {'ok': [t.value for t in g]}
+                return {'ok': sorted(t.value for t in g)}           # the ORDER of iteration is not specified: each node once
             if k == 'helper':
                 f = getattr(tr, 'get_' + query[1])
                 r = f(g, A(query[2]), query[3])
@@ -194,31 +207,59 @@ def impl_answer(g, query, argmap=None):
             # index API (indexed graph only)
             if not hasattr(g, 'root_idx'):
                 return {'na': True}
+            # WHICH index a node gets is not specified (any bijection onto 0..n-1 will do): a valid index is addressed as
+            # ['of', label] (resolved through the graph's own node_to_idx) and every index in an answer is reported as the label
+            # idx_to_node gives for it; indices outside 0..n-1 are passed as they are
+            def I(x):
+                if isinstance(x, list) and len(x) == 2 and x[0] == 'of':
+                    r = g.node_to_idx(hpotk.TermId.from_curie(x[1]))
+                    if r is None or not (0 <= int(r) < n_nodes(g)):
+                        raise AssertionError(f'node_to_idx({x[1]}) = {r!r} for a node of the graph')
+                    return r
+                return x
+
+            def L(i):
+                if not (0 <= int(i) < n_nodes(g)):
+                    return f'index-out-of-range:{int(i)}'
+                return g.idx_to_node(int(i)).value
             if k == 'qidx':
                 name = {'children': 'get_children_idx', 'parents': 'get_parents_idx', 'ancestors': 'get_ancestor_idx',
                         'descendants': 'get_descendant_idx'}[query[1]]
-                return {'ok': sorted(int(i) for i in getattr(g, name)(query[2]))}
+                return {'ok': sorted(L(i) for i in getattr(g, name)(I(query[2])))}
             if k == 'idx2node':
-                return {'ok': g.idx_to_node(query[1]).value}
+                return {'ok': g.idx_to_node(I(query[1])).value}
             if k == 'node2idx':
                 r = g.node_to_idx(A(query[1]))
-                return {'ok': None if r is None else int(r)}
+                return {'ok': None if r is None else L(r)}
             if k == 'rootidx':
-                return {'ok': int(g.root_idx)}
+                return {'ok': L(g.root_idx)}
             if k == 'predidx':
                 name = {'parentOf': 'is_parent_of_idx', 'childOf': 'is_child_of_idx', 'ancestorOf': 'is_ancestor_of_idx',
                         'descendantOf': 'is_descendant_of_idx'}[query[1]]
-                return {'ok': as_bool(getattr(g, name)(query[2], query[3]))}
+                return {'ok': as_bool(getattr(g, name)(I(query[2]), I(query[3])))}
     except Exception as e:  # noqa
         return {'err': canon_err(e), 'exc': type(e).__name__}
     raise ValueError(f'unknown query {query}')
 
 
-def canon_model(ans, query):
-    """sort the model's node/idx lists (order is a free observable)"""
-    if 'ok' in ans and isinstance(ans['ok'], list) and query[0] != 'nodes':
+def canon_model(ans, query, model_nodes=None):
+    """sort the model's node lists (order is a free observable) and report the model's indices as the labels of ITS numbering"""
+    if 'ok' in ans and model_nodes is not None and query[0] in ('qidx', 'node2idx', 'rootidx'):
+        lab = lambda i: model_nodes[i] if 0 <= i < len(model_nodes) else f'index-out-of-range:{i}'    # noqa
+        v = ans['ok']
+        return {'ok': sorted(lab(i) for i in v) if isinstance(v, list) else (None if v is None else lab(v))}
+    if 'ok' in ans and isinstance(ans['ok'], list):
         return {'ok': sorted(ans['ok'])}
     return ans
+
+
+def uses_labelled_indices(queries):
+    return any(q[0] in ('qidx', 'idx2node', 'node2idx', 'rootidx', 'predidx') for q in queries)
+
+
+def resolve_for_model(q, model_nodes):
+    """['of', label] -> the model's index of that node"""
+    return [model_nodes.index(x[1]) if isinstance(x, list) and len(x) == 2 and x[0] == 'of' else x for x in q]
 
 
 def model_batch(cases):
@@ -384,8 +425,17 @@ def evaluate_cases(ctx, cases, stream, theorem, nontrivial, what_key=None, on_bu
     Compares every answer of the implementation with the model's answer (lists sorted, errors by kind)."""
     if not cases:
         return
-    reps = model_batch([(c['factory'], c['edges'], [w for w, _ in c['queries']]) for c in cases])
-    for c, rep in zip(cases, reps):
+    # the model's own numbering of the nodes (needed only where the index API is asked): one extra batch
+    numbering = [None] * len(cases)
+    need = [k for k, c in enumerate(cases) if uses_labelled_indices([w for w, _ in c['queries']])]
+    if need:
+        pre = model_batch([(cases[k]['factory'], cases[k]['edges'], [['nodes']]) for k in need])
+        for k, rep in zip(need, pre):
+            if 'answers' in rep and 'ok' in rep['answers'][0]:
+                numbering[k] = rep['answers'][0]['ok']
+    reps = model_batch([(c['factory'], c['edges'], [resolve_for_model(w, numbering[k]) if numbering[k] is not None else w for w, _ in c['queries']])
+                        for k, c in enumerate(cases)])
+    for k, (c, rep) in enumerate(zip(cases, reps)):
         edges = c['edges']
         try:
             g = build_impl(c['factory'], edges)
@@ -407,7 +457,7 @@ def evaluate_cases(ctx, cases, stream, theorem, nontrivial, what_key=None, on_bu
         bad = []
         for (wq, iq), mans in zip(c['queries'], rep['answers']):
             ia = impl_answer(g, iq)
-            ma = canon_model(mans, wq)
+            ma = canon_model(mans, wq, numbering[k])
             if not answers_equal(ia, ma):
                 bad.append({'query': wq, 'impl': ia, 'model': ma})
                 if len(bad) >= 3:
@@ -452,7 +502,7 @@ def factory_after_failure(ctx, rng, theorem):
                             except Exception:  # noqa
                                 pass
                         g = fac.create_graph([(TermId.from_curie(a), TermId.from_curie(b)) for a, b in valid])
-                    if [t.value for t in g] != [t.value for t in fresh] or g.root != fresh.root:
+                    if sorted(t.value for t in g) != sorted(t.value for t in fresh) or g.root != fresh.root:
                         problem = f'nodes / root differ from a fresh factory: {[t.value for t in g]} root {g.root.value}'
                     for v in fresh:
                         for q in QS:
